@@ -297,6 +297,79 @@ def shared_state(ctx):
                     r = repo.resolve_name(f.module, a0.id)
                     if (r and r[0] == "class") or a0.id == "cls":
                         bad.append((n, f"setattr on a class: {ast.unparse(n)[:60]}"))
+        # aliases of shared containers: a name bound to a class-level / module-level container (depth 0: the object itself; depth 1: a
+        # shallow copy - {**X}, dict(X), X.copy(), list(X), X | y - whose inner containers are still the shared ones)
+        shared_names = set(cls_containers)
+        alias = {}
+        def shared_depth(expr):
+            """0 = the shared object itself, 1 = a shallow copy of it, None = unrelated"""
+            if isinstance(expr, ast.Attribute) and isinstance(expr.value, ast.Name) and expr.value.id in ("self", "cls") and expr.attr in cls_containers \
+                    and expr.attr not in inst_attrs:
+                return 0
+            if isinstance(expr, ast.Attribute) and isinstance(expr.value, ast.Name):
+                r_ = repo.resolve_name(f.module, expr.value.id)
+                if r_ and r_[0] == "class" and expr.attr in r_[1].attrs and isinstance(r_[1].attrs[expr.attr], (ast.List, ast.Dict, ast.Set)):
+                    return 0
+            if isinstance(expr, ast.Name):
+                if expr.id in alias:
+                    return alias[expr.id]
+                r_ = repo.resolve_name(f.module, expr.id)
+                if r_ and r_[0] == "const" and not _is_local(f, expr.id) and expr.id not in {a.arg for a in f.node.args.args} \
+                        and isinstance(f.module.assigns.get(expr.id), (ast.List, ast.Dict, ast.Set)):
+                    return 0
+                return None
+            if isinstance(expr, ast.Dict):
+                ds = [shared_depth(v) for k, v in zip(expr.keys, expr.values) if k is None]
+                ds = [d for d in ds if d is not None]
+                return 1 if ds else None
+            if isinstance(expr, (ast.List, ast.Tuple, ast.Set)):
+                ds = [shared_depth(v.value) for v in expr.elts if isinstance(v, ast.Starred)]
+                ds = [d for d in ds if d is not None]
+                return 1 if ds else None
+            if isinstance(expr, ast.Call):
+                fn_ = expr.func
+                if isinstance(fn_, ast.Name) and fn_.id in ("dict", "list", "set", "tuple", "sorted", "reversed") and expr.args:
+                    d = shared_depth(expr.args[0])
+                    return 1 if d is not None else None
+                if isinstance(fn_, ast.Attribute) and fn_.attr == "copy" and not expr.args:
+                    d = shared_depth(fn_.value)
+                    return 1 if d is not None else None
+                return None
+            if isinstance(expr, ast.BinOp) and isinstance(expr.op, (ast.BitOr, ast.Add)):
+                ds = [d for d in (shared_depth(expr.left), shared_depth(expr.right)) if d is not None]
+                return 1 if ds else None
+            if isinstance(expr, ast.Subscript):
+                d = shared_depth(expr.value)
+                return 0 if d is not None else None  # an element of the shared container (or of its shallow copy) is shared itself
+            if isinstance(expr, ast.IfExp):
+                ds = [d for d in (shared_depth(expr.body), shared_depth(expr.orelse)) if d is not None]
+                return min(ds) if ds else None
+            return None
+        for _ in range(3):
+            for n in walk_no_nested(f.node):
+                if isinstance(n, ast.Assign) and len(n.targets) == 1 and isinstance(n.targets[0], ast.Name):
+                    d = shared_depth(n.value)
+                    if d is not None and n.targets[0].id not in ("self", "cls"):
+                        alias[n.targets[0].id] = min(d, alias.get(n.targets[0].id, d))
+        if alias:
+            for n in walk_no_nested(f.node):
+                tg = []
+                if isinstance(n, ast.Assign):
+                    tg = n.targets
+                elif isinstance(n, (ast.AugAssign, ast.AnnAssign)):
+                    tg = [n.target]
+                elif isinstance(n, ast.Delete):
+                    tg = n.targets
+                elif isinstance(n, ast.Call) and isinstance(n.func, ast.Attribute) and n.func.attr in MUTATORS:
+                    tg = [ast.Subscript(value=n.func.value, slice=ast.Constant(0), ctx=ast.Store())]  # receiver treated as written one level below
+                for t in tg:
+                    base, depth = t, 0
+                    while isinstance(base, (ast.Subscript, ast.Attribute)):
+                        depth += 1
+                        base = base.value
+                    if isinstance(base, ast.Name) and base.id in alias and depth > alias[base.id]:
+                        kind_ = "the shared object" if alias[base.id] == 0 else "an inner container of a shallow copy"
+                        bad.append((n, f"write through {base.id}, {kind_} of a class-level / module-level container: {ast.unparse(n)[:70]}"))
         # default values are evaluated once: a mutable object (container literal or an object constructed in the signature) that the
         # function modifies, hands on or returns is state shared between calls
         par = None
